@@ -369,7 +369,7 @@ class Run:
                 h = hashlib.sha1(v['key'].encode()).hexdigest()[:12]
                 rp = os.path.join(rdir, f'{h}.json')
                 with open(rp, 'w') as fh:
-                    json.dump({'property': self.prop, 'key': v['key'], 'what': v['what'], 'replay': v['replay'],
+                    json.dump({'property': self.prop, 'key': v['key'], 'what': v['what'], 'replay': v['replay'], 'seed': self.seed, 'tier': self.tier,
                                'broken_obligations': self.broken,
                                'how_to_rerun': f'./check {self.prop} --replay replays/{self.prop}/{h}.json'}, fh, indent=1)
                 lines.append(f'VIOLATION property={self.prop} replay=replays/{self.prop}/{h}.json')
@@ -379,7 +379,7 @@ class Run:
             h = hashlib.sha1(json.dumps(self.broken, sort_keys=True).encode()).hexdigest()[:12]
             rp = os.path.join(rdir, f'broken_{h}.json')
             with open(rp, 'w') as fh:
-                json.dump({'property': self.prop, 'broken_obligations': self.broken,
+                json.dump({'property': self.prop, 'broken_obligations': self.broken, 'seed': self.seed, 'tier': self.tier,
                            'note': 'a proof obligation or correspondence no longer checks and the failing-input '
                                    'search found no input on which the property fails on the real code',
                            'known_findings_seen': [v['key'] for v, _ in known]}, fh, indent=1)
